@@ -165,6 +165,10 @@ def replay_guard(mode, armed, noc):
 
 def replay_from_json(d):
     rp = d['replay']
+    if rp.get('which') == 'kill_window':
+        r = replay_kill_window()
+        print(r['detail'])
+        return 1 if r['replayed'] else 0
     if rp.get('which') == 'kill_preemption':
         r = replay_kill_preemption()
         print(r['detail'])
@@ -206,6 +210,27 @@ def replay_start_cancelled(named, links=False):
     if kv.get('send_refused') != '1':
         bad.append('a message is still accepted by the cancelled actor')
     return bad, log
+
+
+def replay_kill_window():
+    """a kill delivered in the await-free stretch between the loop picking up a stop request / the drain marker and the first poll of post_stop (from the hook
+    point in set_status(Stopping), on the actor's own thread): post_stop must not be entered and the exit is reported as killed"""
+    bad, logs = [], {}
+    for mode in ('stop', 'drain'):
+        out, lines, rc, err = native.run('kill_window', mode=mode, timeout=30)
+        if rc != 0:
+            raise RuntimeError('native kill_window failed: ' + err[-300:])
+        log = [x for x in out.get('log', '').split(',') if x]
+        logs[mode] = log
+        if 'kill_returned' not in log:
+            bad.append('%s: the kill was not delivered in the window: %s' % (mode, log))
+            continue
+        after = log[log.index('kill_returned') + 1:]
+        if 'post_stop_entered' in after:
+            bad.append('%s: post_stop was entered after kill() had returned: %s' % (mode, log))
+        if not any(x.startswith('supevt:ActorTerminated') and x.endswith('reason=killed') for x in after):
+            bad.append('%s: the exit is not reported as killed: %s' % (mode, log))
+    return {'replayed': bool(bad), 'detail': 'native actor killed between the stop pick-up and post_stop: %s' % (bad or logs), 'replay': {'which': 'kill_window'}}
 
 
 def replay_kill_preemption():
